@@ -314,6 +314,9 @@ class C12(object):
                 "probe_ctx": rng.random() < 0.4}
         dg = zlib.crc32(repr(clients).encode())
         case["custom_keygetter"] = dg % 3 == 0
+        if (dg // 11) % 8 == 0:
+            case["abort_first"] = [(dg // 88) % 2, 0, 0, 1 + (dg // 176) % 2 * 0, "pos"]
+            clients[0].insert(0, ["y", [list(case["abort_first"])]])
         if (dg // 7) % 10 == 0:
             case["threads_seq"] = [0, (dg // 70) % 2]
         if case["custom_keygetter"] and dg % 2 == 0:
@@ -416,6 +419,26 @@ class C12(object):
             W.probe("sequential_threads")
             if box.get("same"):
                 out.append(("thread-scope", "a thread started after another had ended received that thread's in-flight task for key %r" % ((a0, b0),)))
+        if case.get("abort_first"):
+            # an earlier computation on this thread is aborted by a BaseException that escapes the
+            # scheduler (a KeyboardInterrupt-like error in a lazily computed future) while a
+            # deduplicated call is in flight; the call stays in flight and is shared - and
+            # completed - by whoever asks for that key next
+            from ..prog import SimBaseError
+            cs0 = case["abort_first"]
+
+            def provider():
+                raise SimBaseError("abort")
+
+            @A.asynq()
+            def aborted():
+                t = W.call("aborted", cs0)
+                return (yield [t, A.Future(provider)])
+            try:
+                aborted()
+                out.append(("unexpected", "the aborted computation did not raise"))
+            except SimBaseError:
+                W.probe("computation_aborted_with_call_in_flight")
         try:
             res = root()
         except HarnessError:
